@@ -151,6 +151,13 @@ class Runner {
     m.docs[(size_t)doc].epoch++;
     st.doc_moves++;
   }
+  // KF shrink_burns_pool_ids: every shrinkToFit() gives up the unused slot ids of the last pool
+  bool shrink_allowed(int doc) {
+    if (opt.max_shrinks < 0) return true;
+    if ((long)m.docs[(size_t)doc].shrinks < opt.max_shrinks) return true;
+    ctx.known("shrink_burns_pool_ids");
+    return false;
+  }
   size_t doc_nodes(int doc) { return m.docs[(size_t)doc].root.nodes(); }
 
   // ---------------------------------------------------------------- library navigation
@@ -344,6 +351,7 @@ class Runner {
         log += "\n#" + std::to_string(st.ops) + " d" + std::to_string(d) + ".clear()  (size bound)";
         for (auto& w : worlds) w->docs[d]->clear();
         m.make_null(m.docs[d].root);
+        m.docs[d].shrinks = 0;
         bump((int)d);
         verify(false);
         return;
@@ -415,6 +423,7 @@ class Runner {
     }
     if (t.form == 0) {
       m.make_null(m.docs[(size_t)t.doc].root);
+      m.docs[(size_t)t.doc].shrinks = 0;
       bump(t.doc);
       n = &m.docs[(size_t)t.doc].root;
     }
@@ -432,6 +441,7 @@ class Runner {
     note(render_target(t) + ".to<" + (kind == 0 ? "JsonVariant" : kind == 1 ? "JsonArray" : "JsonObject") + ">() -> h" + std::to_string(m.handles.size()));
     if (t.form == 0) {
       m.make_null(m.docs[(size_t)t.doc].root);
+      m.docs[(size_t)t.doc].shrinks = 0;
       bump(t.doc);
     }
     Val* n = t.form == 0 ? &m.docs[(size_t)t.doc].root : resolve(t, true);
@@ -676,6 +686,7 @@ class Runner {
     if (t.form == 0) {
       for (auto& w : worlds) w->docs[(size_t)t.doc]->clear();
       m.make_null(m.docs[(size_t)t.doc].root);
+      m.docs[(size_t)t.doc].shrinks = 0;
       bump(t.doc);
       return;
     }
@@ -894,6 +905,7 @@ class Runner {
     Val* n;
     if (t.form == 0) {
       m.make_null(m.docs[(size_t)t.doc].root);
+      m.docs[(size_t)t.doc].shrinks = 0;
       bump(t.doc);
       n = &m.docs[(size_t)t.doc].root;
     } else n = resolve(t, true);
@@ -1016,6 +1028,7 @@ class Runner {
         m.assign(ma.root, mb.root);
         ma.ledger = mb.ledger;
         ma.default_alloc = mb.default_alloc;
+        ma.shrinks = 0;
         bump(a);
         break;
       case 1:
@@ -1026,6 +1039,8 @@ class Runner {
         ma.ledger = mb.ledger;
         ma.default_alloc = mb.default_alloc;
         mb.default_alloc = true;
+        ma.shrinks = mb.shrinks;
+        mb.shrinks = 0;
         bump(a);
         bump(b);
         break;
@@ -1035,6 +1050,7 @@ class Runner {
         m.assign(ma.root, mb.root);
         ma.ledger = mb.ledger;
         ma.default_alloc = mb.default_alloc;
+        ma.shrinks = 0;
         bump(a);
         break;
       case 3:
@@ -1045,6 +1061,8 @@ class Runner {
         ma.ledger = mb.ledger;
         ma.default_alloc = mb.default_alloc;
         mb.default_alloc = true;
+        ma.shrinks = mb.shrinks;
+        mb.shrinks = 0;
         bump(a);
         bump(b);
         break;
@@ -1056,6 +1074,7 @@ class Runner {
         m.assign(mb.root, tmp);
         std::swap(ma.ledger, mb.ledger);
         std::swap(ma.default_alloc, mb.default_alloc);
+        std::swap(ma.shrinks, mb.shrinks);
         bump(a);
         bump(b);
         break;
@@ -1068,6 +1087,7 @@ class Runner {
           for (auto& w : worlds) w->docs[(size_t)a]->set(*w->docs[(size_t)b]);
           Val snap = mb.root;
           m.assign(ma.root, snap);
+          ma.shrinks = 0;
           bump(a);
           break;
         }
@@ -1082,12 +1102,15 @@ class Runner {
           w->docs[(size_t)a] = std::move(nd);
         }
         m.assign(ma.root, snap);
+        ma.shrinks = 0;
         bump(a);
         break;
       }
       default:
+        if (!shrink_allowed(a)) return;
         note("d" + std::to_string(a) + ".shrinkToFit()");
         for (auto& w : worlds) w->docs[(size_t)a]->shrinkToFit();
+        ma.shrinks++;
         bump(a);
         st.doc_moves--;
     }
@@ -1108,6 +1131,10 @@ class Runner {
     do_deserialize(t, v, msgpack);
   }
   void do_deserialize(const Target& t, const Val& v, bool msgpack) {
+    if (t.form == 0 && opt.max_shrinks == 0) {  // the document is shrunk at the end of the call
+      ctx.known("shrink_burns_pool_ids");
+      return;
+    }
     std::string bytes;
     if (msgpack) {
       mref::Widths w0;
@@ -1121,6 +1148,7 @@ class Runner {
     Val* n;
     if (t.form == 0) {
       m.make_null(m.docs[(size_t)t.doc].root);
+      m.docs[(size_t)t.doc].shrinks = 1;
       bump(t.doc);
       n = &m.docs[(size_t)t.doc].root;
     } else n = resolve(t, true);
@@ -1171,6 +1199,7 @@ class Runner {
     Val* n = t.form == 0 ? &m.docs[(size_t)t.doc].root : (n0 == 0 ? nullptr : resolve(t, true));
     if (t.form == 0) {
       m.make_null(*n);
+      m.docs[(size_t)t.doc].shrinks = 0;
       bump(t.doc);
       uint64_t id = n->id;
       *n = Val::arr();
